@@ -158,7 +158,10 @@ var uriPool = []uriT{
 	{"unparsable", "https://foo.{D}<>/{M}", false},            // none: '<' is not a host character for either reader... Go rejects it too
 }
 
-var foreignHosts = []string{"evil.test", "attacker.example", "evil.net", "sso-auth.evil.test", "EVIL.test", "xn--80ak6aa92e.com", "evil.test."}
+// outsideHost is the host of the fixtures that are served outside the proxy root domains
+const outsideHost = "acme-sso.authhost.example"
+
+var foreignHosts = []string{outsideHost, "x" + outsideHost, "evil-" + outsideHost, "evil.test", "attacker.example", "evil.net", "sso-auth.evil.test", "EVIL.test", "xn--80ak6aa92e.com", "evil.test."}
 
 func label(r *rand.Rand) string {
 	const a = "abcdefghijklmnopqrstuvwxyz0123456789"
